@@ -10,17 +10,6 @@ open Pars
 
 /-! ### printing -/
 
-/-- the ASCII digit of `d < 10` -/
-def digitByte (d : Nat) : UInt8 := UInt8.ofNat (48 + d)
-
-/-- decimal digits of `n`, most significant first (`fuel > n` suffices) -/
-def natDigitsF : Nat → Nat → Bytes
-  | 0, _ => []
-  | f + 1, n => if n < 10 then [digitByte n] else natDigitsF f (n / 10) ++ [digitByte (n % 10)]
-
-/-- `strconv.Itoa` of a natural number, as bytes -/
-def natDigits (n : Nat) : Bytes := natDigitsF (n + 1) n
-
 /-- fmt verb `%+d`: always a sign, then the decimal digits -/
 def fmtPlus (n : Int) : Bytes := (if n < 0 then 45 else 43) :: natDigits n.natAbs
 
